@@ -131,6 +131,28 @@ func genC10(r *Rng, tier string) *Plan {
 		}
 	}
 	g.PreOps(r.Intn(5), flags&FlagM != 0)
+	if r.Chance(1, 12) {
+		// one configuration that the planning step has to refuse (subject against its profile's rules,
+		// or a profile that does not exist): whatever the run reports, it has planned nothing and so
+		// may write nothing - artifacts of earlier runs, configs and unrelated files stay as they are
+		ne := Pick(r, g.Ents).Clone()
+		switch r.Intn(3) {
+		case 0:
+			ne.Profile = "strict-missing"
+			g.P.Add(Op{K: "put-prof", Prof: &ProfileSpec{Name: ne.Profile, File: "strict-missing-profile", Ext: "yaml",
+				Attrs: []AttrSpec{{Attr: Pick(r, []string{"T", "UID"})}}, AllowOther: bp(true)}})
+		case 1:
+			ne.Profile = "strict-closed"
+			ne.Subject = append([]RDN{{"O", "Other"}}, ne.Subject...)
+			g.P.Add(Op{K: "put-prof", Prof: &ProfileSpec{Name: ne.Profile, File: "strict-closed-profile", Ext: "yaml",
+				Attrs: []AttrSpec{{Attr: "CN"}}, AllowOther: bp(false)}})
+		default:
+			ne.Profile = "no-such-profile"
+		}
+		g.setEnt(ne)
+		g.P.Add(Op{K: "put-ent", Spec: ne, Label: "refusable:" + ne.Profile})
+		g.P.Meta["refusable"] = ne.Profile
+	}
 	g.Run(flags, "first")
 	g.P.Add(Op{K: "clock", N: int64(r.Intn(61))})
 	g.Run(flags, "second")
@@ -250,6 +272,12 @@ func (o *c10Oracle) AfterRun(w *World, op *Op, res *RunResult) {
 		w.State["firstOK"] = res.OK()
 		if !res.OK() {
 			w.Hit("first-run-failed")
+		}
+		if w.Plan.Meta["refusable"] != "" {
+			w.Hit("refusable-config")
+			if !res.OK() {
+				w.Hit("refusable-config-refused")
+			}
 		}
 		if len(res.Plan) > 0 {
 			w.Hit("first-run-had-work")
